@@ -205,6 +205,42 @@ def midrun(kind, dim, cons, free=0):
     return h
 
 
+def after_first_step(kind, dim, cons, nsteps0):
+    """public API only: `nsteps0` Steps from an arbitrary start (1 = right after the initial evaluation), THEN SetStrictRanges,
+    then two more Steps: every evaluation after the installation lies inside the box"""
+    def h(ctx):
+        w = L.World(ctx, dim, box=False, cons=cons)
+        lo, hi = ctx.reals('lo', dim), ctx.reals('hi', dim)
+        for a, b in zip(lo, hi):
+            ctx.assume(le(a, b))
+        s = S.make_solver(kind, dim)
+        L.configure(s, w)
+        if kind == 'Powell':
+            S.install_brent_contract(ctx)
+        x0 = ctx.reals('x', dim)
+        if kind in ('DE', 'DE2'):
+            for i in range(s.nPop):
+                s.population[i] = list(x0)          # (identical members keep the DE path count small; where they lie is symbolic)
+            stubs.ORACLE.override = S.FixedDraws()
+        else:
+            s.population[0] = list(x0)
+        try:
+            for k in range(nsteps0):
+                s.Step()
+            n0 = len(w.calls)
+            w.lo, w.hi = lo, hi
+            s.SetStrictRanges(L.arr(lo), L.arr(hi))
+            s.Step()
+            if kind not in ('DE', 'DE2'):
+                s.Step()
+        finally:
+            stubs.ORACLE.override = None
+        obs = [('evaluated-inside-box-after-installation[call %d]' % k, w.inside(c)) for k, c in enumerate(w.calls[n0:])]
+        obs.append(('ran', const(True)))
+        return obs
+    return h
+
+
 # ----------------------------------------------------------------------------- tight / clip modes (concrete boxes, symbolic points)
 BOX_POOL = S.BOX_POOL
 
@@ -215,7 +251,7 @@ def bounds_constraint(mode, lo, hi):
 
     def h(ctx):
         s = S.nm_solver(dim)
-        kw = dict(tight=True) if mode == 'tight' else dict(clip=(mode == 'clip=True'))
+        kw = dict(tight=True) if mode == 'tight' else (dict(tight=False) if mode == 'tight=False' else dict(clip=(mode == 'clip=True')))
         stubs.ORACLE.override = S.FixedDraws()      # simplify() draws test points
         try:
             s.SetStrictRanges(list(lo), list(hi), **kw)
@@ -273,18 +309,24 @@ def instances(tier, seed):
     if not q:
         out.append(Instance('midrun-ranges/NM/nocons/dim=2', midrun('NM', 2, None)))
         out.append(Instance('midrun-ranges/DE/nocons/dim=2', midrun('DE', 2, None)))
+    for kind in ('NM', 'Powell', 'DE', 'DE2'):
+        for n0 in ((1,) if q else (1, 2)):
+            for cons in ((None,) if (q or kind.startswith('DE')) else (None, 'pure')):
+                out.append(Instance('ranges-after-%d-steps/%s/%s/dim=1' % (n0, kind, cons or 'nocons'), after_first_step(kind, 1, cons, n0), qtimeout=4000))
     for kind in ('fmin', 'fmin_powell', 'diffev', 'diffev2'):
         for cfg in ('box', 'box+cons+pen'):
             for mi in ((1,) if q else (0, 1, 2)):
                 out.append(Instance('wrapper/%s/%s/maxiter=%d' % (kind, cfg, mi), S.wrapper(kind, cfg, 1, mi, oblig)))
-    pool = BOX_POOL[:1] + BOX_POOL[3:4] if q else BOX_POOL
+    pool = BOX_POOL[:1] + BOX_POOL[3:4] + BOX_POOL[6:7] if q else BOX_POOL
     for bi, (lo, hi) in enumerate(BOX_POOL if not q else BOX_POOL[:4]):
         for mode in ('tight', 'clip=True', 'clip=False'):
             out.append(Instance('bounds-constraint/%s/box%d' % (mode, bi), bounds_constraint(mode, lo, hi)))
     for bi, (lo, hi) in enumerate(pool):
-        for mode in ('tight', 'clip=True', 'clip=False'):
+        for mode in ('tight', 'clip=True', 'clip=False', 'tight=False'):
             for kind in (('NM', 'DE') if q else ('NM', 'Powell', 'DE', 'DE2')):
                 if q and kind in ('DE', 'DE2') and (len(lo) > 1 or mode == 'clip=False'):
+                    continue
+                if q and BOX_POOL.index((lo, hi)) == 6 and mode not in ('tight', 'tight=False'):
                     continue
                 for cons in ((None,) if q else (None, 'pure')):
                     out.append(Instance('mode-step/%s/%s/box%d/%s' % (kind, mode, BOX_POOL.index((lo, hi)), cons or 'nocons'),
